@@ -6,7 +6,7 @@
 (* never hides the rest of the trace.  One line is printed per event that  *)
 (* is not explained by the ideal specification.                            *)
 (***************************************************************************)
-EXTENDS Deviations, Json, IOUtils
+EXTENDS Deviations, PushParser, Json, IOUtils
 
 Rec == ndJsonDeserialize(IOEnv.TRACE)
 
@@ -130,6 +130,57 @@ JudgeRun(e, ch, tainted) ==
                        "run() returned " \o e.ret \o ", the loop machine fed with the recorded steps gives " \o m.out
                         \o " after " \o ToString(m.steps) \o " steps")
 
+\* white space: ASCII plus the further Unicode White_Space characters (from ws.json; TLA+ source is ASCII)
+WS == AsciiWS \cup Range(JsonDeserialize("ws.json"))
+
+\* the parser: never crashes, touches only EXEC, and for input without a stray ")" builds exactly the
+\* tree the specification's parser builds (float values exact where the text denotes a small dyadic)
+JudgeParse(e, pre) ==
+  IF Crashed(e) THEN Verdict("crash", "parse", "C03", <<>>, e.post.msg)
+  ELSE LET others == {f \in AllFields \ {"exec"} : e.post[f] # pre[f]}
+           r == Parse(e.act.text, pre.exec, KnownInstr, WS)
+       IN IF others # {} THEN Verdict("mismatch", "parse", "C03", SetAsSeq(others), "the parser changed a stack other than EXEC")
+          ELSE IF r.balanced /\ ~SeqMatch(r.exec, e.post.exec)
+          THEN Verdict("mismatch", "parse", "C03", <<"exec">>, "EXEC differs from the token tree")
+          ELSE Blank("ok", "parse")
+
+\* same structure and atoms, float values ignored
+RECURSIVE SkeletonEq(_, _)
+SkeletonEq(a, b) ==
+  IF a.k # b.k THEN FALSE
+  ELSE IF a.k = "list" THEN Len(a.v) = Len(b.v) /\ \A i \in 1..Len(a.v) : SkeletonEq(a.v[i], b.v[i])
+  ELSE IF a.k \in {"float"} THEN TRUE
+  ELSE a = b
+\* is the item built only from what the parser can produce (lists, ints, bools, floats, names that
+\* classify as names, registered instructions)?
+RECURSIVE Producible(_)
+Producible(t) ==
+  CASE t.k = "list" -> \A i \in 1..Len(t.v) : Producible(t.v[i])
+    [] t.k \in {"int", "bool", "float"} -> TRUE
+    [] t.k = "ins" -> t.v \in KnownInstr
+    [] t.k = "id" -> ~HasSpace(t.v, 1) /\ Len(t.v) > 0 /\ Classify(t.v, KnownInstr).item = IId(t.v) /\ Classify(t.v, KnownInstr).kind = "item"
+    [] OTHER -> FALSE
+\* print -> parse -> print (C11)
+JudgeRoundtrip(e, pre) ==
+  IF Crashed(e) THEN Verdict("crash", "roundtrip", "C11", <<>>, e.post.msg)
+  ELSE IF pre.exec = <<>> \/ ~Producible(pre.exec[1]) THEN Blank("ok", "roundtrip:skipped")
+  ELSE LET t == pre.exec[1]  x == e.ret IN
+       IF ~(Len(x.t2) = 1 /\ SkeletonEq(t, x.t2[1]) /\ x.untouched)
+       THEN Verdict("mismatch", "roundtrip", "C11", <<"t2">>, "parse(print(t)) is not structurally equal to t")
+       ELSE IF x.p2 # x.p1 THEN Verdict("mismatch", "roundtrip", "C11", <<"p2">>, "print(parse(print(t))) differs from print(t)")
+       ELSE IF ~Fuzzy(t) /\ (x.p1 # PrintItem(t) \/ x.t2[1] # t)
+       THEN Verdict("mismatch", "roundtrip", "C11", <<"p1">>, "printed form or re-parsed tree differs from the specification")
+       ELSE Blank("ok", "roundtrip")
+\* textual renderings of the stacks: top first, blank separated
+JudgePrint(e, pre) ==
+  IF Crashed(e) THEN Verdict("crash", "print", "C11", <<>>, e.post.msg)
+  ELSE LET bad == (IF \A i \in 1..Len(pre.exec) : ~Fuzzy(pre.exec[i]) THEN (IF e.ret.exec # PrintItems(pre.exec) THEN {"exec"} ELSE {}) ELSE {})
+                  \cup (IF \A i \in 1..Len(pre.code) : ~Fuzzy(pre.code[i]) THEN (IF e.ret.code # PrintItems(pre.code) THEN {"code"} ELSE {}) ELSE {})
+                  \cup (IF e.ret.int # JoinStr([i \in 1..Len(pre.int) |-> ToString(pre.int[i])], " ") THEN {"int"} ELSE {})
+                  \cup (IF e.ret.bool # JoinStr([i \in 1..Len(pre.bool) |-> BoolStr(pre.bool[i])], " ") THEN {"bool"} ELSE {})
+       IN IF bad = {} /\ e.post = pre THEN Blank("ok", "print")
+          ELSE Verdict("mismatch", "print", "C11", SetAsSeq(bad), "stack rendering differs (top first, blank separated)")
+
 VARIABLES l, cur, chain, taint
 vars == <<l, cur, chain, taint>>
 
@@ -137,6 +188,13 @@ Judge(e, pre) ==
   CASE HasF(e, "envelope") -> Blank("envelope", e.envelope)
     [] e.act.a = "step" -> JudgeStepT(e, pre)
     [] e.act.a = "copy_to_code" -> JudgeCopy(e, pre)
+    [] e.act.a = "parse" -> JudgeParse(e, pre)
+    [] e.act.a = "parse_summary" ->
+         IF Crashed(e) THEN Verdict("crash", "parse", "C03", <<>>, e.post.msg)
+         ELSE IF e.ret.others_unchanged THEN Blank("ok", "parse")
+         ELSE Verdict("mismatch", "parse", "C03", <<>>, "the parser changed a stack other than EXEC")
+    [] e.act.a = "roundtrip" -> JudgeRoundtrip(e, pre)
+    [] e.act.a = "print" -> JudgePrint(e, pre)
     [] e.act.a = "end" -> JudgeEnd(e, taint)
     [] e.act.a = "run_from_start" -> JudgeRun(e, chain, taint)
     [] OTHER -> Blank("unknown-act", e.act.a)
@@ -149,7 +207,7 @@ Consume ==
          first == HasF(e, "pre")
          pre == IF first THEN e.pre ELSE cur
          j   == Judge(e, pre)
-         keeps == e.act.a \in {"end", "run_from_start"}     \* events that do not advance the chain
+         keeps == e.act.a \in {"end", "run_from_start", "roundtrip", "print"}     \* events that do not advance the chain
      IN /\ ((j.v # "ok" \/ j.frame # <<>>) => PrintT("EV " \o ToJson([l |-> l, id |-> e.id, i |-> e.i, j |-> j])))
         /\ cur' = IF Crashed(e) THEN EmptyState ELSE IF keeps THEN pre ELSE e.post
         /\ chain' = IF Crashed(e) THEN <<>>
